@@ -64,6 +64,8 @@ func (r *c19run) exec(op SOp) {
 				fmt.Sprintf("?OTR|%08x|%08x,00001,00002,AAAA,", 0x100+i, 5),
 				"?OTR,1,1,AAAA,",
 				"?OTR|zz|yy,1,1,AAAA,",
+				"?OTR:AAEKAAAAwHZlcnNpb24gb25lIGtleSBleGNoYW5nZQ==.", // a version 1 key-exchange message
+				"?OTR:AAEK.",
 			}
 			before := len(w.Q[who])
 			w.Receive(who, []byte(forms[(i+op.F)%len(forms)]))
@@ -323,6 +325,8 @@ func TestProp_C19_Patterns(t *testing.T) {
 		{{K: "garbage", W: 0}, {K: "replayflood", W: 0}},
 		{{K: "fragflood", W: 0, I: 2}},
 		{{K: "fragflood", W: 1, I: 1, F: 1}, {K: "garbage", W: 1}},
+		{{K: "fragflood", W: 0, I: 2, F: 3}},
+		{{K: "fragflood", W: 1, I: 2, F: 5}},
 		// one side only listens: its only output is the heartbeat after a silence
 		{{K: "age", W: 0}, {K: "burst", W: 1, I: 2}},
 		{{K: "age", W: 1}, {K: "burst", W: 0, I: 3}, {K: "burst", W: 0, I: 1}},
